@@ -199,54 +199,51 @@ def r1(ctx):
     ctx.check("C01.R1", p is None, key(f, "LengthReader|non-negative"), site(f, len_calls[0]),
               "LengthReader(.., %s) is reachable without rejecting a negative length" % L,
               "dominated by `%s < 0` -> raise" % L, path=p and g.fmt_path(p))
-    # (f) transfer-coding loop table
+    # (f) transfer-coding table: the whole function is evaluated on a concrete header list (finite abstract
+    # evaluation, nothing is executed): which reader is constructed / is the message rejected
     te_tests = [t for t in g.tests() if any(isinstance(x, ast.Constant) and isinstance(x.value, str) and x.value.lower() == "chunked" for x in ast.walk(t.ast))]
     ctx.need(te_tests, "C01.R1: no comparison with the token 'chunked' found")
-    loop = f.module.enclosing(te_tests[0].ast, ast.For)
-    ctx.need(loop is not None and isinstance(loop.target, ast.Name), "C01.R1: transfer-coding loop not recognised")
-    head = g.nodes_of(loop)[0]
-    var = loop.target.id
     rows = []
     samples = ["chunked", "Chunked", "CHUNKED", "identity", "IDENTITY", "gzip", "GZip", "compress", "deflate",
                "", "x-unknown", " chunked", "chunked ", "\x0bchunked", "chunked\x0c", "chunkedx", "xchunked", "chunked;q=1",
-               "gzip ", "\tidentity", "chunKed"]
+               "gzip ", "\tidentity", "chunKed", "gzip,chunked", "gzip, chunked", "gzip;chunked", "gzip chunked", "gzip,,chunked"]
+    watch = {n.id: "chunked-reader" for n in chunk_nodes}
+
+    def want_of(codings):
+        seen = False
+        for c in codings:
+            low = c.strip(" \t").lower()
+            if low == "chunked":
+                if seen:
+                    return "reject"
+                seen = True
+            elif low in spec.TE_KNOWN_NON_FINAL:
+                if seen:
+                    return "reject"
+            else:
+                return "reject"
+        return "chunked" if seen else "continue"
     for tval in samples:
         for fval in (False, True):
-            ex = Explorer(f, tracked=[F])
-            outs = ex.run(head, {var: tval, F: fval}, stop=lambda n: n is head, start_label="true")
+            field = ("chunked," + tval) if fval else tval
+            ex = Explorer(f)
+            outs = ex.run(g.entry, {"self.headers": (("TRANSFER-ENCODING", field),), "self.version": (1, 1)}, watch=watch)
             got = set()
             for o in outs:
                 if o.kind == "raise":
                     got.add("reject")
-                elif o.kind == "stop":
-                    fv = o.env.get(F)
-                    got.add("unknown-flag" if fv is UNKNOWN else ("chunked" if fv and not fval else ("continue" if fv == fval else "flag-cleared")))
+                elif o.kind == "return":
+                    got.add("chunked" if "chunked-reader" in o.events else "continue")
                 else:
                     got.add(o.kind)
-            low = tval.lower()
-            if low == "chunked":
-                want = "reject" if fval else "chunked"
-            elif low in spec.TE_KNOWN_NON_FINAL:
-                want = "reject" if fval else "continue"
-            else:
-                want = "reject"
+            want = want_of(field.split(","))
             okrow = got == {want}
-            rows.append({"coding": tval, "chunked_seen": fval, "outcome": sorted(got), "required": want})
+            rows.append({"field": field, "outcome": sorted(got), "required": want})
             ctx.check("C01.R1", okrow, key(f, "TE-table|%r|%s" % (tval, fval)),
-                      site(f, text="transfer-coding %r with chunked_seen=%s" % (tval, fval)),
-                      "transfer-coding loop outcome %s differs from RFC 9112 6.1 table (required: %s)" % (sorted(got), want),
+                      site(f, text="Transfer-Encoding: %r" % (field,)),
+                      "framing decision for Transfer-Encoding %r is %s, RFC 9112 6.1 requires %s" % (field, sorted(got), want),
                       "outcome %s" % want)
-    ctx.table("C01.R1 transfer-coding loop", rows)
-    # the loop variable must be an element of a ',' split of the header value
-    it = loop.iter
-    src = it
-    if isinstance(it, ast.Name):
-        vals = [v for n in stores_to_name(f, it.id) if n.kind == "stmt" and isinstance(n.ast, ast.Assign) for v in [n.ast.value]]
-        src = vals[0] if vals else it
-    split_ok = any(isinstance(c, ast.Call) and isinstance(c.func, ast.Attribute) and c.func.attr == "split" and c.args and const(c.args[0], NO) == ","
-                   for c in ast.walk(src))
-    ctx.check("C01.R1", split_ok, key(f, "TE-list|comma-split"), site(f, src),
-              "transfer-coding elements are not obtained by splitting the field value on ','", "elements come from value.split(',')")
+    ctx.table("C01.R1 transfer-coding table", rows)
 
 
 # ------------------------------------------------------------------------------- R2
@@ -637,7 +634,7 @@ def r4(ctx):
                         ctx.ok("C01.R4", site(f, n), "membership test in a list of whole members")
                         continue
                     ctx.bad("C01.R4", key(f, norm(n)), site(f, n), "substring test `%s` on a protocol element (must compare whole list members)" % norm(n))
-    ctx.floor("C01.R4", "lenient-primitive call sites", n_sites, 12)
+    ctx.floor("C01.R4", "lenient-primitive call sites", n_sites, 8)
 
 
 def _is_collection(f, e):
@@ -767,7 +764,7 @@ def r6(ctx):
                     tn = [x for x in f.cfg.nodes_containing(n) if x.kind == "test"]
                     ctx.check("C01.R6", bool(tn), key(f, "switch-read|" + nm), site(f, n),
                               "cfg.%s is read but does not control a branch" % nm, "read as a branch condition")
-    ctx.floor("C01.R6", "reads of unsafe switches", reads, 6)
+    ctx.floor("C01.R6", "reads of unsafe switches", reads, 4)
     # (iii) specific relaxed statements are control dependent on their switch
     f = repo.func(MSG + ".Message.parse_headers")
     g = f.cfg
